@@ -146,6 +146,9 @@ impl LineParser {
                     line_index + 1
                 )
             }
+            // an exit code without shell expression belongs to no testcase; it must
+            // not be carried over into the next one
+            self.exit_code = None;
             return Ok(());
         }
         self.testcases.push(TestCase {
